@@ -65,5 +65,8 @@ for v in variants:
             print('      expected %r; output:\n      %s' % (v.get('expect', ''), '\n      '.join(l[:300] for l in out.splitlines()[:12])))
     finally:
         subprocess.run(['git', '-C', a.repo, 'checkout', '--', '.'], check=True)
+        if v.get('patch'):
+            # files a patch created are untracked and survive the checkout
+            subprocess.run(['git', '-C', a.repo, 'clean', '-fdq', '--', 'modules', 'api', 'simapp', 'e2e', 'proto'], check=True)
 print('%d variants run, %d failed' % (ran, bad))
 sys.exit(1 if bad else 0)
